@@ -392,16 +392,17 @@ class C14(Spec):
         return bool(flags & 1) == (build[0] == "protobuf")
 
     def gen(self, rng, tier):
-        n = 30000 if tier == "quick" else 1000000
+        n = 12000 if tier == "quick" else 1000000
+        max_aborts = 4 if tier == "quick" else 2000     # every abort of the harness child costs the runner a restart
         texts = []
         bases = list(HAND)
-        for i in range(300 if tier == "quick" else 3000):
+        for i in range(150 if tier == "quick" else 3000):
             g = C07.Gen(rng, special=0.05 if i % 2 else 0.0, max_depth=rng.choice([2, 3, 4]))
             A = g.module()
             t = C07.layout(rng, C07.atoms(A))
             # a base whose conversion aborts the process makes most of its mutants abort too; every abort costs the
             # runner a restart, so only a few such bases are kept (the class is in the corpus anyway)
-            if recursive_untagged_reference(t) and rng.random() < 0.85:
+            if recursive_untagged_reference(t) and (tier == "quick" or rng.random() < 0.85):
                 continue
             bases.append(t)
         texts += bases
@@ -415,6 +416,16 @@ class C14(Spec):
         for depth in (200, 2000):
             texts.append("M DEFINITIONS ::= BEGIN A ::= " + "SEQUENCE OF " * depth + "INTEGER END")
             texts.append("M DEFINITIONS ::= BEGIN A ::= " + "SEQUENCE { a " * depth + "NULL" + " }" * depth + " END")
+        # inputs on which the (classified) unbounded recursions are expected: only a few are kept
+        kept = []
+        aborts = 0
+        for t in texts:
+            if recursive_untagged_reference(t) or imports_from_itself(t):
+                aborts += 1
+                if aborts > max_aborts:
+                    continue
+            kept.append(t)
+        texts = kept
         L = []
         for i, t in enumerate(texts):
             info = 2 if i % 10 == 0 else 0
